@@ -25,10 +25,12 @@ def run(ctx):
     (f7dir / "s.tl").write_text(F7_SCHEMA)
     corpus = [c for c in repo_corpus(quick) if quick is False or c[0] != "cases_nosan"]
     st = family_setup(ctx, PROPS, n_random=5 if quick else 40, corpus=corpus,
-                      extra_specs=[("f7", [f7dir / "s.tl"], ["--tl2WhiteList=*"], "*", True)])
+                      extra_specs=[("f7", [f7dir / "s.tl"], ["--tl2WhiteList=*"], "*", True)], objx_random=1 if quick else 8)
     nseeds = 8 if quick else 200
     stats = {"schemas": 0, "types": 0, "fills": 0, "model_unsupported_types": 0, "diverging_both": 0, "kernel_rejected": 0,
-             "types_terminating_by_theorem": 0, "xwf_false": 0, "max_tl1_bytes": 0, "tl2_written": 0}
+             "types_terminating_by_theorem": 0, "xwf_false": 0, "max_tl1_bytes": 0, "tl2_written": 0,
+             "handler_fills": 0, "handler_fills_over_budget": 0, "handler_sizes_over_1023": 0,
+             "result_fills": 0, "result_fills_nat_over_1023": 0, "result_fills_over_budget": 0}
     mism, bad, samples, unit_errors, skipped, diverging = [], [], [], [], [], []
     distinct = set()     # distinct (schema, type, TL1 bytes) of values with more than 8 bytes (more than tag + one word)
     lock = threading.Lock()
@@ -114,6 +116,90 @@ def run(ctx):
                 uerr.append((u.name, f"unexpected driver output {trunc(g, 100)} for {l}"))
             if gf[0] == "ok" and m == "fuel":
                 pass   # already a correspondence mismatch above
+        # ---- (b) user RandgeneratorContext handlers (public API: NewRandGeneratorWithContext): oracle only.  A SizeHandler may
+        #      return sizes above LimitValue's 1023, a FieldMaskHandler any subset of the used bits
+        def uses_nat(tid):
+            return any(f.get("useSize") or f.get("useMask") for t2 in reach(u.ins, tid) for f in (u.ins[t2].get("fields") or []))
+        hl = []
+        for tid, name, x in tops:
+            if u.name == "f7" or rank[tid] == 0 or not uses_nat(tid):
+                continue
+            for mode in ("big1", "mul37", "maskall", "masknone"):
+                for _ in range(2 if mode == "big1" else 1):
+                    hl.append(f"orandh {name} {rng.getrandbits(32)} {mode}")
+        ho = run_lines_resilient(u.gen.exe, [], hl, timeout=600, max_restarts=30)
+        for l, g in zip(hl, ho):
+            name, mode = l.split(" ")[1], l.split(" ")[3]
+            gf = g.split(" ")
+            if gf[0] == "ok":
+                s_["handler_fills"] = s_.get("handler_fills", 0) + 1
+                if len(gf[1]) > 2 * 4096:
+                    s_["handler_sizes_over_1023"] = s_.get("handler_sizes_over_1023", 0) + 1
+                flags = dict(x.split("=") for x in gf[2:])
+                for key, what in (("j", "JSON"), ("t2", "TL2")):
+                    if flags.get(key) not in ("ok", "na"):
+                        ubad.append((u.name, l, g, f"C18:writer:{key}-handler:{u.name}:{name}", f"{what} writer/reader does not accept the value filled under the {mode} handler"))
+                if flags.get("rep") != "same":
+                    ubad.append((u.name, l, g, f"C18:repro-handler:{u.name}:{name}", "same seed and handler, different value"))
+            elif g == "writeerr":
+                ubad.append((u.name, l, g, f"C18:writer:tl1-handler:{u.name}:{name}", f"TL1 writer refuses the value FillRandom produced under the {mode} handler"))
+            elif "verif-draw-budget" in g:
+                s_["handler_fills_over_budget"] = s_.get("handler_fills_over_budget", 0) + 1
+            else:
+                ubad.append((u.name, l, g, f"C18:crash-handler:{u.name}:{name}", f"FillRandom under the {mode} handler crashes"))
+        # ---- (c) FillRandomResultTL1: the result type filled under nat arguments taken from the request, which are NOT limited to 1023
+        funs = [(x["id"], x["tlName"], x) for x in u.ins
+                if x["kind"] == "struct" and x.get("isFunction") and x.get("topLevel") and not x.get("natParams") and x["tlName"] in u.items
+                and unsupported_reason(u.ins, x["id"]) is None and unsupported_reason(u.ins, x["result"]["type"]) is None]
+        vg = ValueGen(u.ins, rng)
+        el, emeta = [], []
+        for ft, name, x in funs:
+            r = x["result"]
+            rfields = sorted({a["value"] for a in r.get("natArgs") or [] if a["kind"] == "field"})
+            if not rfields or rank[r["type"]] == 0:
+                continue
+            for rep in range(4 if quick else 12):
+                try:
+                    q = vg.top(ft)
+                except Budget:
+                    break
+                fs = list(q[1])
+                big = rng.choice(rfields) if rep % 2 == 0 else None          # one size above 1023, the others small
+                for i in rfields:
+                    if fs[i] is not None:
+                        fs[i] = ("n", rng.choice([1024, 1025, 1500, 2047, 2048, 3000]) if i == big else rng.choice([0, 1, 2, 3, 5]))
+                el.append(f"enc 0 {ft} {name} 1 | {vtext(('S', fs))}")
+                emeta.append((ft, name, x, big is not None))
+        rc, eo, err = run_lines_e(st.ref, margs, el)
+        rgl, rml, rbig = [], [], []
+        for (ft, name, x, isbig), o in zip(emeta, eo if rc == 0 else []):
+            if not o.startswith("ok "):
+                continue
+            r = x["result"]
+            na = r.get("natArgs") or []
+            seed = rng.getrandbits(32)
+            rgl.append(f"oresgen {name} {o[3:]} {seed}")
+            rml.append(f"randres {ft} {r['type']} {1 if r['bare'] else 0} {len(na)} " + " ".join(f"{a['kind']}:{a['value']}" for a in na) + f" | {o[3:]} {seed} {FUEL}")
+            rbig.append(isbig)
+        rgo = run_lines_resilient(u.gen.exe, [], rgl, timeout=600, max_restarts=30)
+        rc, rmo, err = run_lines_e(st.ref, margs, rml, timeout=900)
+        if rc != 0 or len(rmo) != len(rml):
+            uerr.append((u.name, f"model driver failed (randres): rc={rc} {err[-300:]}"))
+        else:
+            for l, g, m, isbig in zip(rgl, rgo, rmo, rbig):
+                name = l.split(" ")[1]
+                if g.startswith("ok "):
+                    s_["result_fills"] = s_.get("result_fills", 0) + 1
+                    if isbig:
+                        s_["result_fills_nat_over_1023"] = s_.get("result_fills_nat_over_1023", 0) + 1
+                    if m != g:
+                        umism.append((u.name, l, m, g))
+                elif g == "writeerr":
+                    ubad.append((u.name, l, g, f"C18:writer:result:{u.name}:{name}", "WriteResultTL1 refuses the result value FillRandomResultTL1 produced for this request"))
+                elif "verif-draw-budget" in g and m == "budget":
+                    s_["result_fills_over_budget"] = s_.get("result_fills_over_budget", 0) + 1
+                else:
+                    ubad.append((u.name, l, g, f"C18:crash-result:{u.name}:{name}", "FillRandomResultTL1 crashes / exceeds the budget although the model does not"))
         with lock:
             for k in s_:
                 stats[k] = stats.get(k, 0) + s_[k]
@@ -141,7 +227,8 @@ def run(ctx):
         rule="non-trivial = distinct (schema, type, TL1 bytes) with more than 8 bytes; per schema (repository schemas, the F7 schema, random schemas): every top-level object the generated factory creates x seeds: "
              "FillRandom driven by the scripted splitmix64 source; TL1 bytes compared with enc1(fill_random) of the extracted model on the same stream; "
              "oracle on the implementation alone: TL1/JSON/TL2 writers accept the value and what they wrote reads back to the same TL1 bytes, same seed twice gives the same bytes; "
-             "a crash counts as the known divergence only when the model runs out of fuel on the same stream",
+             "a crash counts as the known divergence only when the model runs out of fuel on the same stream; "
+             "additionally (oracle only) fills under user RandgeneratorContext handlers (sizes above 1023, all/no mask bits) and (with the model) FillRandomResultTL1 of functions whose request carries sizes above 1023",
         trusted=["translator overlay/internal/puregen/gengo/verif_objdump_test.go (real generator front half -> schema IR + Field.recursive + NatFieldUsage) and lib/schema_ir.py / lib/obj_lib.py (IR and facts file writers)",
                  "translator tools/genconsts (depth bounds, limit, probability weights, letters)",
                  "extraction ExtrOcamlBasic only; ocaml/conv.ml, ocaml/tl1/schema_io.ml, ocaml/obj/xschema_io.ml, ocaml/drv_obj.ml",
